@@ -129,6 +129,23 @@ func main() {
 		sums[h] = s
 		fmt.Printf("harness %s: paths=%d ends=%v asserts=%d queries=%d (sat %d unsat %d unknown %d) solver=%.1fs wall=%.1fs truncated=%v\n",
 			h, s.Paths, s.Ends, s.Asserts, s.Solver.Queries, s.Solver.SatN, s.Solver.UnsatN, s.Solver.UnknownN, s.Solver.Seconds, s.Wall.Seconds(), s.Truncated)
+		type ts struct {
+			tag string
+			sec float64
+			n   int
+			unk int
+		}
+		var tl []ts
+		for k, v := range s.Solver.ByTag {
+			tl = append(tl, ts{k, v.Seconds, v.N, v.Unknown})
+		}
+		sort.Slice(tl, func(i, j int) bool { return tl[i].sec > tl[j].sec })
+		for i, t := range tl {
+			if i >= 6 || t.sec < 1 {
+				break
+			}
+			fmt.Printf("  solver-time %7.1fs n=%-5d unknown=%-3d %s\n", t.sec, t.n, t.unk, t.tag)
+		}
 		var ms []string
 		for m := range s.Msgs {
 			ms = append(ms, m)
